@@ -24,11 +24,40 @@ try:
     os.rmdir(wt)
     rc, out = sh('git -C /repo worktree add -f --detach %s HEAD' % wt, cwd='/repo')
     assert rc == 0, out
+    demo_text = open(os.path.join(src, 'demo.rs')).read()
+    snippet = ('#[cfg(test)]' in demo_text and re.search(r'\bmod\s+\w+', demo_text) and 'append' in notes.lower())
+    if snippet:
+        # a crate-internal #[cfg(test)] module to append to a source file named in the notes
+        mfile = re.search(r'(simple-(?:dns|mdns)/src/[\w/]+\.rs)', notes)
+        target = os.path.join(wt, mfile.group(1))
+        crate = 'simple-mdns' if 'simple-mdns' in mfile.group(1) else 'simple-dns'
+        res['crate'] = crate
+        res['demo_kind'] = 'snippet appended to ' + mfile.group(1)
+        feat = '--features sync' if crate == 'simple-mdns' else ''
+        modname = re.search(r'\bmod\s+(\w+)', demo_text).group(1)
+        demo_cmd = 'cargo test --offline -p %s %s --lib %s 2>&1 | tail -25' % (crate, feat, modname)
+
+        class _D:
+            orig = None
+        def put_demo():
+            _D.orig = open(target).read()
+            open(target, 'a').write('\n' + demo_text + '\n')
+        def del_demo():
+            open(target, 'w').write(_D.orig)
+    else:
+        feat = '--features sync' if crate == 'simple-mdns' else ''
+        demo_cmd = 'cargo test --offline -p %s %s --test demo_seed 2>&1 | tail -25' % (crate, feat)
+        def put_demo():
+            shutil.copy(os.path.join(src, 'demo.rs'), os.path.join(wt, crate, 'tests', 'demo_seed.rs'))
+        def del_demo():
+            os.remove(os.path.join(wt, crate, 'tests', 'demo_seed.rs'))
     demo_dst = os.path.join(wt, crate, 'tests', 'demo_seed.rs')
-    shutil.copy(os.path.join(src, 'demo.rs'), demo_dst)
-    rc0, out0 = sh('cargo test --offline -p %s --test demo_seed 2>&1 | tail -15' % crate)
+    put_demo()
+    rc0, out0 = sh(demo_cmd)
+    if 'running 0 tests' in out0 and 'test result: ok. 0 passed' in out0 and ' 1 passed' not in out0 and snippet:
+        out0 = out0
     res['demo_without_change'] = 'pass' if ('test result: ok' in out0 and 'FAILED' not in out0) else 'FAIL'
-    os.remove(demo_dst)
+    del_demo()
     rc, out = sh('git apply %s' % os.path.join(src, 'patch.diff'))
     res['applies'] = rc == 0
     assert rc == 0, out
@@ -36,8 +65,8 @@ try:
                    'cargo test --offline -p simple-dns --tests 2>&1 | grep -E "test result|FAILED" | head -20; cargo test --offline -p simple-dns --doc 2>&1 | grep -E "test result|FAILED" | head -5')
     res['suite_with_change'] = 'pass' if ('FAILED' not in out1 and 'error' not in out1 and 'test result: ok' in out1) else 'FAIL'
     res['suite_log'] = out1[-800:]
-    shutil.copy(os.path.join(src, 'demo.rs'), demo_dst)
-    rc2, out2 = sh('timeout 600 cargo test --offline -p %s --test demo_seed 2>&1 | tail -25' % crate)
+    put_demo()
+    rc2, out2 = sh('timeout 600 ' + demo_cmd)
     res['demo_with_change'] = 'FAIL' if ('FAILED' in out2 or 'panicked' in out2 or rc2 != 0 and 'test result: ok' not in out2) else 'pass'
     res['demo_log'] = out2[-600:]
 finally:
